@@ -145,7 +145,17 @@ def _main_while(f):
     return loops[0] if len(loops) == 1 else None
 
 
-def _loop_paths(ctx, f, lp, no_inline=()):
+def _alias_like(v):
+    if isinstance(v, (ast.Name, ast.Constant)):
+        return True
+    if isinstance(v, ast.Attribute):
+        return _alias_like(v.value)
+    return isinstance(v, ast.Call) and isinstance(v.func, ast.Name) and \
+        v.func.id == 'len' and len(v.args) == 1 and \
+        isinstance(v.args[0], ast.Name)
+
+
+def _loop_paths(ctx, f, lp, no_inline=(), alias_only=False):
     from ..absint.symbody import SymBody
     sym = SymBody(ctx, f, max_paths=2000, no_inline=no_inline)
     pre = sym.run(f.node.body[:f.node.body.index(lp)])
@@ -156,6 +166,8 @@ def _loop_paths(ctx, f, lp, no_inline=()):
     if envs:
         env = {k: v for k, v in envs[0].items() if k not in carried and all(
             k in e and ast.unparse(e[k]) == ast.unparse(v) for e in envs)}
+    if alias_only:
+        env = {k: v for k, v in env.items() if _alias_like(v)}
     return sym, env, sym.run(lp.body, env), pre
 
 
@@ -628,72 +640,103 @@ def rule_wellformed(ctx, res):
 
 def rule_copy(ctx, res):
     model = ctx.model
+    u = ast.unparse
     dec = model.func(CZ + ':decompress_code')
     q = dec.qual
-    blk = None
-    for n_ in walk_own(dec.node):
-        if isinstance(n_, ast.If) and isinstance(n_.test, ast.Compare) and \
-                isinstance(n_.test.ops[0], ast.LtE) and n_.orelse:
-            blk = n_.orelse
-    if blk is None:
-        res.vanished('R-C05-copy', q, 'block branch', 'not found')
+    lp = _main_while(dec)
+    if lp is None:
+        res.vanished('R-C05-copy', q, 'decoder loop', 'not found')
         return
-    slice_copy = None
-    seq_copy = None
-    for s in blk:
-        for n_ in walk_own(s):
-            if isinstance(n_, ast.Assign) and \
-                    isinstance(n_.targets[0], ast.Subscript) and \
-                    isinstance(n_.targets[0].slice, ast.Slice) and \
-                    ast.unparse(n_.targets[0].value) == 'out':
-                slice_copy = n_
-            if isinstance(n_, ast.For):
-                body = [ast.unparse(x).replace(' ', '') for x in n_.body]
-                stores = [x for x in n_.body if isinstance(x, ast.Assign)]
-                if len(stores) == 1 and ast.unparse(stores[0]).replace(
-                        ' ', '') == 'out[out_i]=out[out_i-offset]' and \
-                        'out_i+=1' in body and \
-                        body.index('out_i+=1') > body.index(
-                            'out[out_i]=out[out_i-offset]') and \
-                        ast.unparse(n_.iter).replace(' ', '') == \
-                        'range(length)':
-                    bounded = any('out_i>=code_length' in b for b in body)
-                    seq_copy = (n_, bounded)
-    if seq_copy is not None and slice_copy is None:
-        res.holds('R-C05-copy', q, 'back-reference copied byte by byte, in '
-                  'increasing order',
-                  'out[k] = out[k - offset] for length steps: correct for '
-                  'overlapping references (offset < length)' + (
-                      ', bounded by the declared length'
-                      if seq_copy[1] else ''),
-                  dec.module.loc(seq_copy[0]))
-        res.check(seq_copy[1], 'R-C05-copy', q,
-                  'copy cannot write past the declared code length', '',
-                  'the copy loop is not bounded by code_length',
-                  dec.module.loc(seq_copy[0]))
-    elif slice_copy is not None:
+    sym, env, paths, pre = _loop_paths(ctx, dec, lp, alias_only=True)
+    block_paths = [p for p in paths if any(e[0] == 'loop' for e in p.events)]
+    slice_stores = [e for p in paths for e in p.events
+                    if e[0] == 'store' and isinstance(e[2], ast.Slice) and
+                    u(e[1]) == 'out']
+    seq = None
+    bounded = False
+    for p in block_paths:
+        lpev = [e for e in p.events if e[0] == 'loop'][0]
+        inner, ienv = lpev[1], lpev[2]
+        ienv2 = {k: v for k, v in ienv.items()
+                 if k != 'out_i' and _alias_like(v)}
+        ok = True
+        n_step = 0
+        for qp in sym.run(inner.body, ienv2):
+            stores = [e for e in qp.events if e[0] == 'store']
+            if qp.end == 'break':
+                # leaving early: only allowed at the declared length
+                if any(u(t).replace(' ', '') in ('out_i>=code_length',)
+                       and v for (t, v) in qp.conds):
+                    bounded = True
+                    continue
+                ok = False
+                continue
+            if len(stores) != 1 or u(stores[0][1]) != 'out' or \
+                    u(stores[0][2]) != 'out_i' or not (
+                        isinstance(stores[0][3], ast.Subscript) and
+                        u(stores[0][3].value) == 'out' and
+                        isinstance(stores[0][3].slice, ast.BinOp) and
+                        isinstance(stores[0][3].slice.op, ast.Sub) and
+                        u(stores[0][3].slice.left) == 'out_i') or \
+                    u(qp.env.get('out_i')) != 'out_i + 1':
+                ok = False
+            else:
+                n_step += 1
+        if isinstance(inner, ast.While):
+            full = {k: v for k, v in ienv.items()
+                    if k not in ('out_i', 'code_length', 'out')}
+            t = u(sym.S(inner.test, full)).replace(' ', '')
+            if 'min(' in t and 'code_length' in t and t.startswith('out_i<'):
+                bounded = True
+        if ok and n_step >= 1:
+            seq = inner
+    if slice_stores:
+        e = slice_stores[0]
         res.violation(
             'R-C05-copy', q, 'back-reference copied byte by byte, in '
             'increasing order',
             'the decoder copies a back-reference with one slice assignment '
-            '({}): for a well-formed reference with offset < length the '
-            'source slice contains cells that are not written yet (literal '
-            '`a` + (offset 1, length 3) decodes to `aa\\0\\0` instead of '
-            '`aaaa`), and the slice store can lengthen the output'.format(
-                unparse(slice_copy, 70)), dec.module.loc(slice_copy))
+            '(out[{}] = {}): for a well-formed reference with offset < '
+            'length the source slice contains cells that are not written '
+            'yet (literal `a` + (offset 1, length 3) decodes to `aa\\0\\0` '
+            'instead of `aaaa`), and the slice store can lengthen the '
+            'output'.format(u(e[2]), u(e[3])[:50]), dec.module.loc(e[-1]))
+    elif seq is not None:
+        res.holds('R-C05-copy', q, 'back-reference copied byte by byte, in '
+                  'increasing order',
+                  'out[k] = out[k - offset], k += 1 per step: correct for '
+                  'overlapping references (offset < length)',
+                  dec.module.loc(seq))
+        res.check(bounded, 'R-C05-copy', q,
+                  'copy cannot write past the declared code length', '',
+                  'the copy loop is not bounded by code_length',
+                  dec.module.loc(seq))
     else:
         res.undecided('R-C05-copy', q, 'copy idiom',
                       'back-reference copy is written in an idiom outside '
                       'the model', dec.loc)
-    # literal branches write one byte and advance by one
-    src = ast.unparse(dec.node).replace(' ', '')
-    lit_ok = src.count('out_i+=1') >= 2 and 'out[out_i]=codedata[in_i]' in src
-    res.check(lit_ok, 'R-C05-copy', q, 'literals write one byte each', '',
+    # literal paths write one byte and advance the output by one
+    lit_ok = True
+    n_lit = 0
+    for p in paths:
+        if p in block_paths:
+            continue
+        stores = [e for e in p.events if e[0] == 'store']
+        if len(stores) == 1 and u(stores[0][1]) == 'out' and \
+                u(stores[0][2]) == 'out_i' and \
+                u(p.env.get('out_i')) == 'out_i + 1':
+            n_lit += 1
+        else:
+            lit_ok = False
+    res.check(lit_ok and n_lit >= 2, 'R-C05-copy', q,
+              'literals write one byte each', '',
               'literal branches changed', dec.loc)
-    loop_ok = 'whileout_i<code_lengthandin_i<len(codedata):' in src
+    t = u(sym.S(lp.test, env)).replace(' ', '')
+    loop_ok = 'out_i<code_length' in t and 'in_i<len(codedata)' in t and \
+        isinstance(lp.test, ast.BoolOp) and isinstance(lp.test.op, ast.And)
     res.check(loop_ok, 'R-C05-copy', q,
               'decoding stops at the declared length / end of data', '',
-              'decoder loop condition changed', dec.loc)
+              'decoder loop condition changed: ' + t[:60], dec.loc)
 
 
 def run(ctx, res):
